@@ -519,9 +519,33 @@ func (b *Built) bindOpts(v reflect.Value, opts []*Opt, where string) {
 				}))
 			}
 		} else if o.Initial != nil {
-			f.Set(reflect.ValueOf(o.Initial).Convert(f.Type()))
+			f.Set(CopyInitial(reflect.ValueOf(o.Initial).Convert(f.Type())))
 		}
 	}
+}
+
+// CopyInitial gives every execution its own copy of a preset slice or map, so that a library that
+// writes into the preset cannot leak from one execution into the next.
+func CopyInitial(v reflect.Value) reflect.Value {
+	switch v.Kind() {
+	case reflect.Slice:
+		if v.IsNil() {
+			return v
+		}
+		n := reflect.MakeSlice(v.Type(), v.Len(), v.Len())
+		reflect.Copy(n, v)
+		return n
+	case reflect.Map:
+		if v.IsNil() {
+			return v
+		}
+		n := reflect.MakeMapWithSize(v.Type(), v.Len())
+		for _, k := range v.MapKeys() {
+			n.SetMapIndex(k, v.MapIndex(k))
+		}
+		return n
+	}
+	return v
 }
 
 func (b *Built) bindSentinels(v reflect.Value, where string) {
